@@ -132,7 +132,7 @@ def run_builder_check(pid, gen_cases, oracle_fn, fields=None, truncate_at_leak=T
     run.log("running %d histories on the implementation" % len(cases))
     impl = []
     for i, (dp, cmds) in enumerate(cases):
-        impl.append(ImplRun(dp, style=i % 3).run(cmds))
+        impl.append(ImplRun(dp, style=i % 4).run(cmds))
     opcount, exccount, lens = {}, {}, {}
     after_leak_seen = [0]
     truncated = 0
